@@ -2,7 +2,8 @@
      src/store.rs   resolve_temp_id, StoreFor::resolve_id, Storable::temp_id
      src/types.rs   TypeInfo::temp_id_prefix
    Strings are lists of Unicode scalar values (N).  Public ids of the harness
-   are a kind letter followed by the canonical decimal token ("a3", "r0", ...). *)
+   are a kind letter followed by the canonical decimal token ("a3", "r0", ...), except two
+   tokens whose ids look like the beginning of a temporary id (see plain_token). *)
 From Coq Require Import List NArith Bool Arith.
 Import ListNotations.
 From Stam Require Import Model.Offset Model.Store.
@@ -62,14 +63,31 @@ Definition digits (n : N) : list N := digits_f (S (N.to_nat (N.log2 n))) n.
 
 Definition temp_id (k : kind) (h : N) : list N := 33 :: letter k :: digits h.
 
-(* an ordinary id of the harness: letter + canonical decimal token *)
+(* an ordinary id of the harness: letter + canonical decimal token ("a3"); the ids of tokens 4 and
+   5 begin like a temporary id of their own kind without being one: '!', the capital, 'x', the
+   token ("!Ax4") *)
+Definition bang_named (n : N) : bool := N.eqb n 4 || N.eqb n 5.
+
+Definition canonical_token (rest : list N) : option N :=
+  match parse_digits 0 rest with
+  | Some n => if (match rest with [] => false | _ => true end) && (n <? 1000)
+                 && (list_eqb N.eqb (digits n) rest) then Some n else None
+  | None => None
+  end.
+
 Definition plain_token (k : kind) (s : list N) : option N :=
   match s with
+  | 33 :: l :: 120 :: rest =>
+      if N.eqb l (letter k) then
+        match canonical_token rest with
+        | Some n => if bang_named n then Some n else None
+        | None => None
+        end
+      else None
   | l :: rest =>
       if N.eqb l (idletter k) then
-        match parse_digits 0 rest with
-        | Some n => if (match rest with [] => false | _ => true end) && (n <? 1000)
-                       && (list_eqb N.eqb (digits n) rest) then Some n else None
+        match canonical_token rest with
+        | Some n => if bang_named n then None else Some n
         | None => None
         end
       else None
